@@ -72,6 +72,7 @@ struct Config {
 
 struct GenOpts {
 	int max_boards = 4;
+	int min_boards = 0;
 	int max_items = 3;         // per section
 	int max_trains = 4;
 	bool need_track_output = false;   // at least one board with the DCC-main class bit
